@@ -67,7 +67,7 @@ def gen(args) -> list:
     for typ, ptext, forced_culture in todo:
         culture = forced_culture if forced_culture is not None else rnd.choice(cults)
         ev = {"op": "pattern", "type": typ, "pattern": cps(ptext), "culture": culture.name if culture is not None else "", "parses": []}
-        if typ == "LocalTime":
+        if typ in ("LocalTime", "Offset"):
             # for the reference parser (PatternParse.tla): the culture's time separator; parsed values are logged below
             try:
                 from harness.props.c07 import _fi as _fi7
@@ -134,6 +134,8 @@ def gen(args) -> list:
                         p["valid"] = textgen.is_valid(typ, r.value)
                         if typ == "LocalTime" and p["valid"]:
                             p["nod"] = [r.value.nanosecond_of_day // 10**9, r.value.nanosecond_of_day % 10**9]
+                        if typ == "Offset" and p["valid"]:
+                            p["nod"] = [r.value.seconds, 0]
                     else:
                         p["out"] = "failure"
                         ok = isinstance(r.exception, Exception)
@@ -211,6 +213,9 @@ def run(ctx: Ctx):
                 k = e["type"] + (":accepted" if e["created"] == "ok" else ":rejected")
                 gram[k] = gram.get(k, 0) + 1
     ctx.notes["creations_compared_with_the_grammar"] = gram
+    ctx.notes["parses_offered_to_the_reference_parser"] = {
+        t: sum(len(e["parses"]) for p in parts for e in p if e["type"] == t and e["created"] == "ok" and "tsep" in e and len(e["pattern"]) > 1)
+        for t in ("LocalTime", "Offset")}
     ctx.notes["parse_outcomes"] = {}
     for p in parts:
         for e in p:
